@@ -118,8 +118,9 @@ pub fn gen_query(rng: &mut Rng, k: usize, _tier: &str) -> J {
     let eps = *rng.pick(&[0.1, 0.5, 1.0, 2.0, 10.0]);
     let delta = *rng.pick(&[1e-3, 1e-5, 1e-8, 0.05]);
     let share = *rng.pick(&[0.5, 0.25, 0.75, 0.5, 0.1]);
-    let mult = *rng.pick(&[100.0, 1.0, 5.0, 1000.0]);
-    let mshare = *rng.pick(&[0.1, 0.01, 1.0]);
+    // the assumed multiplicity min(max, size × share) is not always a whole number
+    let mult = *rng.pick(&[100.0, 1.0, 5.0, 1000.0, 2.5]);
+    let mshare = *rng.pick(&[0.1, 0.01, 1.0, 0.013]);
     let groups = *rng.pick(&[5u64, 1, 2, 20]);
     let _ = k;
     json!({"sql": sql, "aggs": raw_aggs, "eps": eps, "delta": delta, "share": share, "mult": mult, "mult_share": mshare, "groups": groups})
